@@ -106,6 +106,11 @@ def oracle_c12(r):
         out.append((None, f"generating twice differs: {s} then {r['out2']}"))
     if not r["calc_eq"]:
         out.append((None, "calculate() differs from state(generated).calculate()"))
+    if r.get("enum_eq") is False:
+        out.append((None, "the state generated through the mode-agnostic Performance enum (lazer set with the enum's setter) "
+                          "differs from the mode's own builder"))
+    if "panic_enum" in r:
+        out.append((None, "generate_state through the Performance enum panicked: " + r["panic_enum"]))
     if m == 0:
         combo, large, small, ends, n300, n100, n50, misses = s
         hits = [n300, n100, n50]
